@@ -191,7 +191,7 @@ func (c *Ctx) Locks() map[*ssa.Function]*LockInfo {
 						}
 						for lk, mode := range held {
 							if lk == ap || strings.HasPrefix(lk, ap+".") {
-								tr[p.Name()+strings.TrimPrefix(lk, ap)] = mode
+								tr[ParamName(p)+strings.TrimPrefix(lk, ap)] = mode
 							}
 						}
 					}
